@@ -474,6 +474,18 @@ func (c *recConn) Get(key string) ([]byte, error) {
 		err = errors.Join(driver.ErrNotExist, errFault)
 	case f != nil && f.Kind == "bytes":
 		b, _ = hex.DecodeString(f.Bytes)
+	case f != nil && f.Kind == "cl":
+		b, err = c.rs.inner.Get(key)
+		if err == nil {
+			if i := bytes.Index(b, []byte("Content-Length: ")); i >= 0 {
+				j := i + len("Content-Length: ")
+				k := j
+				for k < len(b) && b[k] >= '0' && b[k] <= '9' {
+					k++
+				}
+				b = append(append(append([]byte{}, b[:j]...), []byte(f.Bytes)...), b[k:]...)
+			}
+		}
 	case f != nil && (f.Kind == "trunc" || f.Kind == "flip"):
 		b, err = c.rs.inner.Get(key)
 		if err == nil {
